@@ -242,7 +242,10 @@ pub fn create_dir(p: PathBuf, Tracked(w): Tracked<&mut World>) -> (r: std::resul
 pub fn file_open(p: &PathBuf, Tracked(w): Tracked<&mut World>) -> (r: std::result::Result<StdFile, IoError>)
     ensures *final(w) == *old(w),
         r matches Ok(f) ==> old(w).store.contains_key(*p) && f.stored() == old(w).store[*p] && f.path() == *p,
+        r is Err ==> !old(w).store.contains_key(*p) || read_fails(*p),
 { unimplemented!() }
+/// A-fs: an existing state file cannot be opened for reading (permissions, I/O error)
+pub uninterp spec fn read_fails(p: PathBuf) -> bool;
 /// `std::fs::File::create`: creates or truncates — from this instant the file holds no decodable record
 #[verifier::external_body]
 pub fn file_create(p: &PathBuf, Tracked(w): Tracked<&mut World>) -> (r: std::result::Result<StdFile, IoError>)
@@ -270,6 +273,7 @@ pub fn serialize_into(f: StdFile, s: &TargetEnvState, Tracked(w): Tracked<&mut W
     ensures
         *final(w) == *old(w),
         r matches Ok(s) ==> old(w).store.contains_key(file_path) && old(w).store[file_path] == Stored::State(s.view()),
+        /*[C03.read-back]*/ old(w).store.contains_key(file_path) && old(w).store[file_path] is State && !read_fails(file_path) ==> r is Ok,
 //@end
 
 //@fn src/engine/incremental/storage.rs read_saved_target_env_state ret=r
@@ -278,6 +282,8 @@ pub fn serialize_into(f: StdFile, s: &TargetEnvState, Tracked(w): Tracked<&mut W
     ensures
         /*[C02.needs-record]*/ r matches Some(s) ==> old(w).store.contains_key(state_path(target.project_dir, target.id)) && old(w).store[state_path(target.project_dir, target.id)] == Stored::State(s.view()),
         r is Some ==> *final(w) == *old(w),
+        /*[C03.read-back]*/ old(w).store.contains_key(state_path(target.project_dir, target.id)) && old(w).store[state_path(target.project_dir, target.id)] is State
+            && !read_fails(state_path(target.project_dir, target.id)) ==> r is Some,
         /*[C05.corrupt,C18.frame-read]*/ r is None ==> final(w).store == old(w).store || final(w).store == old(w).store.remove(state_path(target.project_dir, target.id)),
         /*[C05.corrupt]*/ r is None && old(w).store.contains_key(state_path(target.project_dir, target.id)) && final(w).store.contains_key(state_path(target.project_dir, target.id)) ==> final(w).store == old(w).store,
         *final(w) == (World { store: final(w).store, ..*old(w) }),
@@ -726,7 +732,7 @@ impl Resources {
     pub open spec fn is_empty_spec(&self) -> bool { self.files@.len() == 0 && self.cmds@.len() == 0 }
 //@fn src/domain.rs Resources::is_empty ret=r
 //@contract
-    ensures r == self.is_empty_spec(),
+    ensures /*[C03.no-input]*/ r == self.is_empty_spec(),
 //@end
 }
 
@@ -784,6 +790,8 @@ impl TargetEnvState {
         /*[C02.theorem,C02.needs-record,C18.decision-local]*/ r ==> *final(w) == *old(w) && old(w).store.contains_key(state_path(target.project_dir, target.id))
             && (old(w).store[state_path(target.project_dir, target.id)] matches Stored::State(ev) && env_unchanged(ev, old(w).snap, *target_input, target_output)),
         /*[C05.corrupt]*/ !r ==> final(w).store == old(w).store || final(w).store == old(w).store.remove(state_path(target.project_dir, target.id)),
+        /*[C03.skip]*/ old(w).store.contains_key(state_path(target.project_dir, target.id)) && !read_fails(state_path(target.project_dir, target.id))
+            && (old(w).store[state_path(target.project_dir, target.id)] matches Stored::State(ev) && env_unchanged(ev, old(w).snap, *target_input, target_output)) ==> r,
         *final(w) == (World { store: final(w).store, ..*old(w) }),
 //@end
 
@@ -812,6 +820,10 @@ pub fn await_build(future: BuildFuture, target: &TargetMetadata, Tracked(w): Tra
         /*[C02.theorem,C02.needs-record]*/ r matches Ok(IncrementalRunResult::Skipped) ==> *final(w) == *old(w) && old(w).store.contains_key(state_path(target.project_dir, target.id))
             && (old(w).store[state_path(target.project_dir, target.id)] matches Stored::State(ev) && env_unchanged(ev, old(w).snap, *target_input, target_output)),
         /*[C03.no-input]*/ target_input.is_empty_spec() ==> !(r matches Ok(IncrementalRunResult::Skipped)),
+        // the converse of C02.theorem, which is C03 itself: a readable record that is the state of the current world means "skipped"
+        /*[C03.skip]*/ !target_input.is_empty_spec() && old(w).store.contains_key(state_path(target.project_dir, target.id)) && !read_fails(state_path(target.project_dir, target.id))
+            && (old(w).store[state_path(target.project_dir, target.id)] matches Stored::State(ev) && env_unchanged(ev, old(w).snap, *target_input, target_output))
+            ==> r matches Ok(IncrementalRunResult::Skipped),
         /*[C05.write-on-success-only]*/ (r is Err || r matches Ok(IncrementalRunResult::Cancelled)) ==>
             !final(w).store.contains_key(state_path(target.project_dir, target.id))
             || (final(w).builds == old(w).builds && same_or_dropped(old(w).store, final(w).store, state_path(target.project_dir, target.id))),
